@@ -26,16 +26,24 @@ from common import Ctx, Outcome
 DRIVERS = ["Pods"]
 TABLES = True
 LEVEL = "proof"
-RULE = ("every row of the generated descriptor table (class x POD slot) x value classes of its kind "
+RULE = ("[linked text: token-level values (lead text, links live/dead/malformed/unnamed/stale, tails) x loader state; any HTML "
+        "at fragment level; timestamps: years 1..9999 x all offset kinds x rounding edges, disturbed iso strings; "
+        "specification op histories up to 25 steps incl. len; save/reload on corpus models] "
+        "every row of the generated descriptor table (class x POD slot) x value classes of its kind "
         "(strings: empty/long/every XML-legal BMP character in blocks/markup-significant/illegal; HTML with and "
         "without errors; bool; ints incl. huge/negative/bool; floats incl. denormal/huge/-0.0/inf/-inf/nan/int; "
         "aware+naive datetimes in many offsets and sub-ms parts; every enum member by object and by name; "
         "SelectorRules) x initial attribute state (absent/present/junk); distinct = (descriptor, value, initial "
         "state); non-trivial = value is not None and not the plain default")
 ASSUMPTIONS = [
-    "str(float)/float(str), float(int), datetime.astimezone/isoformat/fromisoformat, lxml's HTML parser/serialiser "
-    "(helpers.repair_html, escape/unescape_linked_text) are parameters of the model; their laws (Params.Lawful) are "
-    "sampled on the implementation in every run (see coverage.law_samples)",
+    "str(float)/float(str), float(int), datetime.astimezone() of naive values (local zone), datetime.fromisoformat on shapes "
+    "the code never writes, and lxml's HTML repair (helpers.repair_html) are parameters of the model; their laws "
+    "(Params.Lawful) are sampled on the implementation in every run (see coverage.law_samples)",
+    "isoformat('T','milliseconds') / fromisoformat on the written shapes / millisecond truncation are modelled (Model/PodsDt.lean) "
+    "and proved inverse; tied by the dt.format / dt.parse / pod.datetime streams",
+    "libxml2's HTML parser is modelled only on the linked-text sub-language (text runs without CR, the five references of "
+    "html.escape, <a href=\"…\"/> and <a href=\"…\">text</a>); on other strings lxml.html.fragments_fromstring stays a "
+    "parameter and the two walks are tied at fragment level (lt.escape.frags / lt.unescape.frags)",
     "int()/str() are modelled for ASCII digits and Python's whitespace set; non-ASCII decimal digits are not modelled",
     "surrogate code points cannot be represented in Lean's Char; they are XML-illegal and exercised by the monitor only",
     "local time zone of the sandbox (UTC) for naive datetimes",
@@ -43,7 +51,12 @@ ASSUMPTIONS = [
 ]
 TRUSTED = ["C07: oracle tables recorded from CPython/lxml by harness/props/c07.py are passed to the model unchanged"]
 MANIFEST = dict(
-    text=("Lean theorems over a model of BasePOD.__get__/__set__/__delete__ and the eight codecs: for every row of "
+    text=("(round 3: the linked-text codec incl. a parser for its sub-language, the iso timestamp codec and _Specification "
+          "as a mutable mapping are now inside the model with unbounded theorems — exact read-back characterisation and "
+          "round trip of linked text, injectivity and XML-safety of the stored form, parse(format t) = trunc t for all "
+          "valid aware datetimes except sub-second offsets (iff), refinement of any op history to an insertion-ordered "
+          "dict, float special values / elision / exact acceptance set.) "
+          "Lean theorems over a model of BasePOD.__get__/__set__/__delete__ and the eight codecs: for every row of "
           "the generated descriptor table (every POD slot of every registered model class, kernel-checked "
           "well-formedness) and every valid value, get(set(v)) is the value v stands for (HTML up to repair, timestamps "
           "to milliseconds, enum names to members), read-back is a fixpoint, defaults (also by enum name) are elided, "
@@ -51,13 +64,14 @@ MANIFEST = dict(
           "proofs for the decimal integer codec and the two datetime regexes. CPython float/datetime conversions and "
           "libxml2's HTML repair are parameters with stated laws, sampled on the implementation. Tied to /repo by a "
           "differential run of all 1 056 slots x value classes against the real descriptors and by an independent "
-          "monitor incl. save/reload; _Specification (plain + linked text) is modelled and run differentially, its "
-          "linked-text codec is only sampled."),
+          "monitor incl. save/reload on the corpus models (newline-family characters, specification bodies); "
+          "_Specification (plain + linked text) is modelled and run differentially."),
     design_ref="§6 C07",
-    note=("partial: HTML well-formedness repair and its idempotence, linked-text escaping, float<->str and datetime "
-          "iso conversions live in libxml2/CPython and are sampled, not proved; save/reload goes through the "
-          "serializer (C01/C02) and is sampled by the monitor. Known finding: writable=False is write-once "
-          "(absent attribute accepts one write); linked text with dead links reads back as a placeholder."),
+    note=("partial: HTML well-formedness repair and its idempotence and float<->str live in libxml2/CPython and are "
+          "sampled, not proved; libxml2's HTML parser is modelled only on the linked-text sub-language; save/reload goes "
+          "through the serializer (C01/C02) and is sampled by the monitor. Known findings: writable=False is write-once "
+          "(absent attribute accepts one write); linked text with dead links reads back as a placeholder; a UTC offset "
+          "shorter than one second is read back as UTC (CPython)."),
     technique="Lean 4 proof (generic over a kernel-checked generated descriptor table) + differential correspondence "
               "with the real descriptors + independent implementation-side monitor",
 )
@@ -1621,7 +1635,9 @@ def live_part(ctx, out, capellambse, helpers, pvmt_config, xml_legal, monitor_ex
                         out.case(("live-ro", rd, obj.uuid, name))
                         continue
                     pool = enum_pool(d) if kind == "enum" else pools[kind]
-                    cands = [(lab, v) for lab, v in pool if monitor_expect(kind, d, v)[0] and not (isinstance(v, str) and len(v) > 3000)]
+                    # (sub-second UTC offsets: known finding, judged in memory by the descriptor cases; not planned here)
+                    cands = [(lab, v) for lab, v in pool if monitor_expect(kind, d, v)[0] and not (isinstance(v, str) and len(v) > 3000)
+                             and not subsecond_offset(v)]
                     label, v = rng.choice(cands)
                     valid, want, is_default = monitor_expect(kind, d, v)
                     try:
@@ -1769,6 +1785,16 @@ def reload_part(ctx, out, capellambse, pvmt_config, monitor_expect, py_equal, po
         except Exception as e:
             dist["skipped_models"].append(f"{rel}: search: {type(e).__name__}")
             everything = []
+        # save() writes the primary resource only (libraries are read-only by design): plan on its elements alone
+        def in_primary(obj) -> bool:
+            try:
+                return model._loader.find_fragment(obj._element).parts[0] == "\0"
+            except Exception:
+                return False
+
+        n_all = len(everything)
+        everything = [o for o in everything if in_primary(o)]
+        dist["elements_in_read_only_libraries_skipped"] = dist.get("elements_in_read_only_libraries_skipped", 0) + n_all - len(everything)
         for obj in everything:
             by_type.setdefault(type(obj), []).append(obj)
         planned = []
@@ -1791,7 +1817,8 @@ def reload_part(ctx, out, capellambse, pvmt_config, monitor_expect, py_equal, po
                         dist["pod_nl_values"] += 1
                     else:
                         pool = enum_pool(d) if kind == "enum" else pools[kind]
-                        cands = [(lab, x) for lab, x in pool if monitor_expect(kind, d, x)[0] and not (isinstance(x, str) and len(x) > 3000)]
+                        cands = [(lab, x) for lab, x in pool if monitor_expect(kind, d, x)[0] and not (isinstance(x, str) and len(x) > 3000)
+                                 and not subsecond_offset(x)]
                         label, v = rng.choice(cands)
                     valid, want, is_default = monitor_expect(kind, d, v)
                     if not valid:
